@@ -919,7 +919,7 @@ func ExploreTargets(run *evid.Run, spec Spec, tier string, targets [][]Event, sm
 				note := ""
 				if !run.IsKnownSig(v.Sig) {
 					hits := 0
-					for k := 0; k < 5; k++ {
+					for k := 0; k < 5 && hits == 0; k++ { // a target's step may be a whole sweep: stop at the first reproduction
 						if !confirmW.alive {
 							confirmW = startWorker(spec, tier)
 						}
